@@ -287,6 +287,13 @@ def real_filesystem_family():
                     want = (data[size - k:], size - k)
                     check('fs/last_bytes', exc is None and got == want,
                           detail=(size, n, exc))
+        for alg in sorted(hashlib.algorithms_available):
+            if alg.startswith('shake'):
+                continue
+            check('fs/checksum-every-available-algorithm',
+                  F.compute_file_checksum(p, 64, alg)
+                  == hashlib.new(alg, open(p, 'rb').read()).hexdigest(),
+                  detail=alg)
         check('fs/checksum-default-arguments',
               F.compute_file_checksum(p) == hashlib.sha256(
                   open(p, 'rb').read()).hexdigest())
